@@ -107,7 +107,7 @@ def run(prop, tier, replay=None):
         for wk in workers:
             if wk.timed_out:
                 continue
-            if wk.rc not in (0, 4):  # sanitizer death or hang exit: resume behind the failing case
+            if wk.rc not in (0, 4, 5):  # sanitizer death: resume behind the failing case (after a hang the rest is skipped)
                 wit = (wk.records("X") or wk.records("A") or [{}])[-1]
                 parts = str(wit.get("case", "")).split()
                 if len(parts) >= 3 and parts[2].isdigit() and wk.span[0] != "c08h":
